@@ -188,10 +188,6 @@ def gen_cases(tier, rng):
         others = [h for h in groups[(tuple(sorted(g["V"])), _sig(g))] if gr.canon(h) != gr.canon(g)]
         seed = rng.randrange(1 << 30)
         g0 = rng.choice(others) if others else g
-        if not others:
-            p = gr.perturb(g, rng, acyclic=False)
-            prs = [tuple(sorted(e)) for k in "DBU" for e in (p or g)[k]]
-            g0 = p if p is not None and len(prs) == len(set(prs)) and c["kind"] == "rand" else g
         yield dict(c, kind="rep-" + c["kind"], rep=["same", "same", "copy", "result"][seed % 4], g0=g0)
 
 
